@@ -831,8 +831,10 @@ func c37record(kind int) {
 	if ev&c37ResourceParsed != 0 {
 		vfReach("resource parsed")
 	}
-	if ev&c37RejPastTyped != 0 {
-		vfReach("rejected record with RDLENGTH past the end: typed body method tried")
+	if ev&(c37RejPastTyped|c37RejHeader) != 0 {
+		// (since the repair of C37-typed-rdlength-past-end the header method itself rejects a record whose RDLENGTH runs
+		// past the end; before it, the typed body method was reached and accepted the record)
+		vfReach("rejected record: the header method rejects it too, or RDLENGTH past the end and the typed body method tried")
 	}
 	if ev&c37RejBodyTyped != 0 {
 		vfReach("rejected record with a malformed body: typed body method tried")
